@@ -191,7 +191,11 @@ func c06Gen(c *core.Ctx) func(yield func(c06Case) bool) {
 		if !ok {
 			return
 		}
-		c06Pops(small, func(pop []scen.Inst) bool {
+		reqPops := small
+		if c.Thorough() {
+			reqPops = full
+		}
+		c06Pops(reqPops, func(pop []scen.Inst) bool {
 			for _, k := range c6Kinds {
 				if ok = yield(c06Case{Pop: pop, Kind: k}); !ok {
 					return false
